@@ -344,7 +344,7 @@ func ruleFloatGuard(c *Ctx) {
 		_ = zero
 		_ = plain
 	}
-	c.MinCount("appendFloat successful paths", nOK, 3)
+	c.MinCount("appendFloat successful paths", nOK, 2)
 	if len(bad) == 0 {
 		c.Ok("appendFloat:guards", p.Pos(fd), fmt.Sprintf("non-finite values excluded and format thresholds exact on all %d successful paths", nOK))
 	}
